@@ -277,6 +277,17 @@ func genModule(pkgs []*packages.Package, m *Module, byName map[string]*Module, o
 		for _, p := range pkgs {
 			se.LoadGlobals(p.PkgPath)
 		}
+		// contracts of used modules of the same package stand for the methods they cover (see InvMethod)
+		if merged := e.Specs[target.PkgPath]; merged != nil {
+			imp := *merged
+			imp.Funcs = map[string]*spec.FuncSpec{}
+			for k, f := range merged.Funcs {
+				if f.Imported {
+					imp.Funcs[k] = f
+				}
+			}
+			se.Specs[target.PkgPath] = &imp
+		}
 		for _, fn := range se.ExportedFuncs(target.PkgPath) {
 			if _, has := m.Spec.Funcs[fn.Name()]; has || fn.Name() == "_deploy" {
 				continue
@@ -284,7 +295,7 @@ func genModule(pkgs []*packages.Package, m *Module, byName map[string]*Module, o
 			if opt.OnlyFunc != "" && fn.Name() != opt.OnlyFunc {
 				continue
 			}
-			rep, err := se.InvMethod(target.PkgPath, fn, m.Spec)
+			rep, err := se.InvMethod(target.PkgPath, fn, e.Specs[target.PkgPath])
 			if err != nil {
 				rr.GenErrors = append(rr.GenErrors, fmt.Sprintf("%s: invariants over %s: %v", m.Name, fn.Name(), err))
 				continue
@@ -505,5 +516,54 @@ func Run(opt Options, own, used []*Module, all []*Module) *RunResult {
 		o.Status = status
 		rr.Obls = append(rr.Obls, o)
 	}
+	if opt.OnlyFunc == "" && opt.OnlyModule == "" {
+		rr.Obls = append(rr.Obls, aliasObligations(pkgs)...)
+	}
 	return rr
+}
+
+// aliasObligations: validity of the functional model of compound values (NeoVM structs, arrays and buffers are
+// references). One obligation per contract package loaded for this check; it is discharged by the syntactic
+// alias-mutation scan (sym.AliasScan), not by a solver.
+func aliasObligations(pkgs []*packages.Package) []*Obl {
+	byPkg := map[string][]sym.AliasFinding{}
+	var names []string
+	for _, p := range pkgs {
+		if strings.Contains(p.PkgPath, "neofs-contract/contracts/") || strings.HasSuffix(p.PkgPath, "neofs-contract/common") {
+			names = append(names, p.Types.Name())
+		}
+	}
+	sort.Strings(names)
+	for _, f := range sym.AliasScan(pkgs) {
+		byPkg[f.Pkg] = append(byPkg[f.Pkg], f)
+	}
+	var out []*Obl
+	for _, n := range names {
+		o := &Obl{Name: "model:" + n + "#no-alias-mutation", Module: "model", Func: n, Kind: "model", Queries: 1, Backends: map[string]int{"govc/alias-scan": 1},
+			Text: "no compound value (struct, array, map, buffer) of package " + n + " is changed in place while another live name refers to it (validity of the functional model of compound values; NeoVM values of these kinds are references)"}
+		o.Status = "discharged"
+		if fs := byPkg[n]; len(fs) > 0 {
+			o.Status = "failed"
+			o.Detail = "alias-mutation"
+			var b strings.Builder
+			for _, f := range fs {
+				fmt.Fprintf(&b, "%s %s: %s\n", f.Pos, f.Func, f.What)
+			}
+			o.Raw = b.String()
+		}
+		out = append(out, o)
+	}
+	return out
+}
+
+// AliasReport prints the alias-mutation scan of the given package patterns (development aid).
+func AliasReport(root string, rels []string) {
+	pkgs, err := Load(root, rels)
+	if err != nil {
+		fmt.Println("load:", err)
+		return
+	}
+	for _, f := range sym.AliasScan(pkgs) {
+		fmt.Printf("%s %s: %s\n", f.Pos, f.Func, f.What)
+	}
 }
